@@ -185,3 +185,77 @@ macro_rules! single_line_harness {
 single_line_harness!(print_string_single_line_n2_outside_known, 2, 14, false);
 single_line_harness!(print_string_single_line_n2_known_quote_backslash, 2, 14, true);
 single_line_harness!(print_string_single_line_n3_outside_known, 3, 19, false);
+
+
+// ------------------------------------------------------------------------------------------------
+// Block-string path (inputs containing a line feed): LEXICAL well-formedness only.
+// The emitted text must be exactly one block-string token: it starts with `"""`, and the first
+// unescaped `"""` after the opening is the end of the output (`\"""` is the escaped form).
+// Whether BlockStringValue(token) == input (common-indent / blank-line stripping) is NOT decided here.
+pub fn is_one_block_string_token(b: &[u8; sink::CAP], len: usize) -> bool {
+    if len < 6 || b[0] != b'"' || b[1] != b'"' || b[2] != b'"' {
+        return false;
+    }
+    let mut i = 3;
+    loop {
+        if i + 3 > len {
+            return false; // unterminated
+        }
+        if i + 4 <= len && b[i] == b'\\' && b[i + 1] == b'"' && b[i + 2] == b'"' && b[i + 3] == b'"' {
+            i += 4; // escaped triple quote
+        } else if b[i] == b'"' && b[i + 1] == b'"' && b[i + 2] == b'"' {
+            return i + 3 == len; // the closing delimiter must end the output
+        } else {
+            i += 1;
+        }
+    }
+}
+
+const ALPHA_BLOCK: [char; 5] = ['\n', '"', '\\', 'a', ' '];
+
+fn has_lf(s: &SymStr) -> bool {
+    let mut i = 0;
+    while i < s.n {
+        if s.chars[i] == '\n' {
+            return true;
+        }
+        i += 1;
+    }
+    false
+}
+fn ends_with_quote_or_backslash(s: &SymStr) -> bool {
+    s.n > 0 && (s.chars[s.n - 1] == '"' || s.chars[s.n - 1] == '\\')
+}
+
+// $known = true: multi-line strings ENDING in `"` or `\` (recorded finding: the closing delimiter
+// merges with the trailing quote / is escaped by the trailing backslash); false: all other
+// multi-line strings, which must verify.
+macro_rules! block_harness {
+    ($name:ident, $n:expr, $unw:expr, $known:expr) => {
+        #[kani::proof]
+        #[kani::stub(alloc::string::String::push, sink::string_push)]
+        #[kani::stub(alloc::string::String::push_str, sink::string_push_str)]
+        #[kani::stub(str::repeat, sink::str_repeat_1)]
+        #[kani::stub(alloc::fmt::format, format_stub_u1)]
+        #[kani::stub(str::find, strlex::str_find_char)]
+        #[kani::unwind($unw)]
+        fn $name() {
+            let s = SymStr::any($n, &ALPHA_BLOCK);
+            kani::assume(has_lf(&s));
+            kani::assume(ends_with_quote_or_backslash(&s) == $known);
+            let mut w = Collect { native: String::new() };
+            print_string(s.as_str(), &mut w);
+            let (out, len) = sink::contents(&w.native);
+            #[cfg(not(verif_mutant))]
+            assert!(is_one_block_string_token(&out, len), "C16: multi-line string is emitted as exactly one block-string token");
+            #[cfg(verif_mutant)]
+            assert!(len == s.n + 6, "mutant oracle (triple quotes never escaped): must be refuted");
+            kani::cover!($known || (s.n == 3 && s.chars[0] == '"' && s.chars[1] == '"'), "two quotes inside the text");
+            kani::cover!(!$known || s.chars[s.n - 1] == '\\', "text ending in a backslash");
+            core::mem::forget(w);
+        }
+    };
+}
+block_harness!(print_string_block_n3_outside_known, 3, 16, false);
+block_harness!(print_string_block_n3_known_trailing_quote_backslash, 3, 16, true);
+block_harness!(print_string_block_n4_outside_known, 4, 18, false);
